@@ -54,6 +54,7 @@ def setup() -> None:
     T.install(sim.use_repo(), instr_classes=[U.LRUCache])
     U.Lock = T.SimLock
     T.neutralise_real_locks()
+    T.install_threading_factories()
     _setup_done = True
 
 
